@@ -5,6 +5,8 @@ package harness
 import (
 	"context"
 	"fmt"
+	"google.golang.org/grpc/credentials"
+	"strings"
 	"sync"
 	"testing"
 	"time"
@@ -158,6 +160,9 @@ func propC10(c c10Case) *Outcome {
 		// (4) peer
 		if pr, ok := peer.FromContext(ctx); !ok || pr.Addr == nil || pr.Addr.Network() != "inproc" {
 			p.fault("level %d handler: peer = %v", level, pr)
+		} else if pr.AuthInfo != nil && pr.AuthInfo.AuthType() != "inproc" {
+			// a peer in the caller's context (a value under a key gRPC itself uses) must not show through
+			p.fault("level %d handler: in-process peer carries auth info of type %q", level, pr.AuthInfo.AuthType())
 		}
 		// (5) deadline
 		dl, has := ctx.Deadline()
@@ -296,7 +301,7 @@ func propC10(c c10Case) *Outcome {
 		root = metadata.NewIncomingContext(root, l0.InMD.MD())
 	}
 	if l0.Peer {
-		root = peer.NewContext(root, &peer.Peer{Addr: memAddr("203.0.113.9:1")})
+		root = peer.NewContext(root, &peer.Peer{Addr: memAddr("203.0.113.9:1"), AuthInfo: credentials.TLSInfo{CommonAuthInfo: credentials.CommonAuthInfo{SecurityLevel: credentials.PrivacyAndIntegrity}}})
 	}
 	if c.DeadlineNs != 0 {
 		deadline = time.Now().Add(time.Duration(c.DeadlineNs))
@@ -354,6 +359,12 @@ func genC10(t *rapid.T) c10Case {
 			l.NoMD = true
 		default:
 			l.OutMD = genMD(t, "outmd", 3)
+			if rapid.IntRange(0, 4).Draw(t, "grpckey") == 0 {
+				// grpc-prefixed keys that applications (tracing, retry accounting) do send and that the
+				// standard transport delivers: only a fixed list of grpc- names is reserved
+				k := rapid.SampledFrom([]string{"grpc-trace-bin", "grpc-tags-bin", "grpc-previous-rpc-attempts", "grpc-custom"}).Draw(t, "grpckeyname")
+				l.OutMD = append(l.OutMD, MDPair{K: k, V: genMDValue(t, "grpckeyval", strings.HasSuffix(k, "-bin"))})
+			}
 			if l.OutMD == nil {
 				l.NoMD = true
 			}
